@@ -19,3 +19,35 @@ Fixpoint set_sparse_seq (rn : list name) (f : fs) (w : wc) (ps : list (list path
       let '(rs, f', w') := set_sparse_seq rn (o_fs o) w1 ps' in
       (o_res o :: rs, f', w')
   end.
+
+(** Sparse-pattern changes interleaved with checkouts inside one working copy. *)
+Inductive wc_op := OpCheckout (t : tree) | OpSparse (ps : list path).
+Fixpoint run_ops (rn : list name) (f : fs) (w : wc) (ops : list wc_op) : list result * fs * wc :=
+  match ops with
+  | [] => ([], f, w)
+  | op :: r =>
+      let '(o, w1) := match op with
+                      | OpCheckout t => check_out rn f w t
+                      | OpSparse ps => set_sparse rn f w ps
+                      end in
+      let '(rs, f', w') := run_ops rn (o_fs o) w1 r in
+      (o_res o :: rs, f', w')
+  end.
+Fixpoint trees_of (ops : list wc_op) : list tree :=
+  match ops with
+  | [] => []
+  | OpCheckout t :: r => t :: trees_of r
+  | OpSparse _ :: r => trees_of r
+  end.
+Fixpoint final_tree (ops : list wc_op) (t0 : tree) : tree :=
+  match ops with
+  | [] => t0
+  | OpCheckout t :: r => final_tree r t
+  | OpSparse _ :: r => final_tree r t0
+  end.
+Fixpoint final_sparse (ops : list wc_op) (s0 : list path) : list path :=
+  match ops with
+  | [] => s0
+  | OpCheckout _ :: r => final_sparse r s0
+  | OpSparse ps :: r => final_sparse r ps
+  end.
